@@ -139,9 +139,12 @@ class CallGraph:
                         if isinstance(n.ctx, (ast.Store, ast.Del)) and n.attr in ci.setters:
                             refs.add(ci.setters[n.attr])
                             break
-        for inner in self.p.all_funcs():
-            if inner.outer is f:
-                pass         # nested defs are reached through references / calls only
+        inners = {inner.name: inner for inner in self.p.all_funcs() if inner.outer is f}
+        if inners:
+            # a nested def used as a value (passed as callback, returned) or called by name is reachable from f
+            for n in own_nodes(f.node):
+                if isinstance(n, ast.Name) and isinstance(n.ctx, ast.Load) and n.id in inners:
+                    refs.add(inners[n.id])
         self.sites[f] = sites
         self.refs[f] = refs
 
